@@ -32,10 +32,11 @@ MANIFEST = dict(
     ref="6/C07")
 
 HARNESS_LIBS = ("-lnghttp2", "-lpcre2-8", "-lz", "-lm", "-ldl")
-# the two sanitizer checks switched off fire inside lshpack.c on *valid* traffic / harmless
-# inputs (see report: shift UB in lshpack_dec_dec_int, memcpy(NULL,0) in lshpack_arr_push);
-# they belong to C12, here they would only mask the functional comparison
-HARNESS_EXTRA = ("-fno-sanitize=shift", "-fno-sanitize=nonnull-attribute")
+# UBSan's shift check is switched off inside this harness only: lshpack_dec_dec_int() shifts a
+# uint32 by 35 (6th continuation octet) and an int 8..15 by 28 (5-octet integers >= 2^31) before it
+# rejects / accepts the value -- pre-existing, value-wise harmless UB that belongs to C12 (reported);
+# left on it would abort the harness on such inputs and hide the functional comparison.
+HARNESS_EXTRA = ("-fno-sanitize=shift",)
 
 STATIC = [
     (b":authority", b""), (b":method", b"GET"), (b":method", b"POST"), (b":path", b"/"),
@@ -549,8 +550,9 @@ def run(ctx):
                 "(1..1000 blocks, served/discarded mixed, table size changes) from 3 independent encoders; every "
                 "single-bit corruption of short blocks; distinct = (op, outcome/error kind, blocks, table fill) tuples")
     ctx.assumptions += ["nghttp2 (libnghttp2) is a conformant HPACK peer",
-                        "UBSan shift and nonnull-attribute checks are disabled inside lshpack.c (pre-existing UB "
-                        "on harmless inputs, reported separately); everything else runs under ASan+UBSan"]
+                        "UBSan's shift check is disabled inside the harness (pre-existing shift UB in "
+                        "lshpack_dec_dec_int on over-long integers, reported separately); everything else runs "
+                        "under ASan+UBSan"]
 
 
 def replay_line(ctx, rep):
